@@ -208,6 +208,8 @@ pub fn decorations(j: &J) -> Vec<Deco> {
         match &n.kind {
             NodeKind::Field => {
                 with("field-doc", true, &|x| x["doc"] = json!(NASTY_DOC));
+                with("field-doc-empty", true, &|x| x["doc"] = json!(""));
+                with("field-doc-blank", true, &|x| x["doc"] = json!(" \n\t"));
                 with("field-aliases", true, &|x| x["aliases"] = json!(["old_name", "older"]));
                 with("field-order-descending", true, &|x| x["order"] = json!("descending"));
                 with("field-order-ignore", true, &|x| x["order"] = json!("ignore"));
@@ -222,6 +224,8 @@ pub fn decorations(j: &J) -> Vec<Deco> {
             NodeKind::Schema { ty, named, object_form } => {
                 if *named {
                     with("type-doc", true, &|x| x["doc"] = json!(NASTY_DOC));
+                    with("type-doc-empty", true, &|x| x["doc"] = json!(""));
+                    with("type-doc-blank", true, &|x| x["doc"] = json!(" \n\t"));
                     with("type-aliases-relative", true, &|x| x["aliases"] = json!(["OldName"]));
                     with("type-aliases-qualified", true, &|x| x["aliases"] = json!(["other.ns.OldName", "Old2"]));
                     with("type-custom-scalar", true, &|x| x["x-custom"] = json!("v"));
